@@ -31,6 +31,8 @@ pub struct PluginOpts {
     pub prolonged_cfg: Option<(Vec<char>, String)>,
     /// settings of the yomigana plugin: (left brackets, right brackets, max length)
     pub yomigana_cfg: Option<(Vec<char>, Vec<char>, usize)>,
+    /// katakana joining before numeric joining
+    pub path_swapped: bool,
 }
 
 impl PluginOpts {
@@ -50,6 +52,7 @@ impl PluginOpts {
             char_def: None,
             prolonged_cfg: None,
             yomigana_cfg: None,
+            path_swapped: false,
         }
     }
 
@@ -116,6 +119,9 @@ impl PluginOpts {
         }
         if let Some(minlen) = self.join_katakana {
             path.push(json!({"class": format!("{}JoinKatakanaOovPlugin", CLS), "oovPOS": kata_pos.to_vec(), "minLength": minlen}));
+        }
+        if self.path_swapped {
+            path.reverse();
         }
         let mut conn = vec![];
         if !self.inhibit.is_empty() {
@@ -305,11 +311,13 @@ pub struct Tok<'a> {
     pub list: MorphemeList<&'a JapaneseDictionary>,
     /// normalised text of the last successful analysis
     pub normalized: String,
+    /// (begin, end) of every result node in characters of the normalised text
+    pub nranges: Vec<(usize, usize)>,
 }
 
 impl<'a> Tok<'a> {
     pub fn new(dict: &'a JapaneseDictionary, mode: Mode) -> Tok<'a> {
-        Tok { tok: StatefulTokenizer::new(dict, mode), list: MorphemeList::empty(dict), normalized: String::new() }
+        Tok { tok: StatefulTokenizer::new(dict, mode), list: MorphemeList::empty(dict), normalized: String::new(), nranges: Vec::new() }
     }
 
     /// reset + tokenize + collect. Err carries the library error text.
@@ -318,6 +326,16 @@ impl<'a> Tok<'a> {
         self.tok.do_tokenize()?;
         self.normalized.clear();
         self.normalized.push_str(self.tok.verif_input().current());
+        {
+            // peek at the result nodes (public swap API, swapped back immediately)
+            use sudachi::analysis::node::LatticeNode;
+            let mut inp = sudachi::input_text::InputBuffer::new();
+            let mut nodes = Vec::new();
+            let mut ss = sudachi::dic::subset::InfoSubset::empty();
+            self.tok.swap_result(&mut inp, &mut nodes, &mut ss);
+            self.nranges = nodes.iter().map(|n| (n.begin(), n.end())).collect();
+            self.tok.swap_result(&mut inp, &mut nodes, &mut ss);
+        }
         self.list.collect_results(&mut self.tok)?;
         Ok(())
     }
